@@ -261,6 +261,20 @@ class Ctx:
             out[fam] = (tf, r["runs"])
         return out
 
+    def e2e_sched(self, n=8, maxfaults=1, binary=None):
+        """TLC enumerates every placement of at most `maxfaults` faults (drop / dup / hold) on the first n datagrams of each
+        direction; the real client and server run once under each schedule.  Returns {"sched": (trace, runs)}."""
+        hb = binary or self.build("h-quic")
+        cfg = self.make_cfg("Gen_FaultSchedule.cfg", "Gen_FaultSchedule_run.cfg", {"N": n, "MaxFaults": maxfaults})
+        beh, cnt = self.gen("Gen_FaultSchedule", "gen_sched.txt", cfg=cfg, workers=4)
+        tf = os.path.join(self.out, "e2e-sched.ndjson")
+        r = self.harness(hb, ["sched", beh, self.seed, tf], timeout=3000)
+        os.remove(beh)
+        self.cov["stages"].append({"stage": "e2e", "family": "sched (TLC-enumerated fault schedules, N=%d, <=%d faults)" % (n, maxfaults),
+                                   **{k: v for k, v in r.items() if not k.startswith("_")}})
+        log("E2E sched: %d enumerated schedules, %d events, %d stalls/panics (%.0fs)" % (r["runs"], r["events"], r["stalls_or_panics"], r["_wall_s"]))
+        return {"sched": (tf, r["runs"])}
+
     def filtered(self, master, kinds, name, primary_only=True, ep=None, only=None):
         """per-specification view of a master trace: keeps the listed event kinds, nothing is rewritten or reordered.
         primary_only: events of secondary connections (server connections created by replayed/duplicated client
